@@ -39,6 +39,7 @@ func init() {
 		}
 	}
 	floors = append(floors, histRequiredFloors...)
+	floors = append(floors, "2creds:owners-own-pass-flag-honoured", "2creds:other-repositorys-pass-flag-not-inherited", "2creds:carry-own-origin", "boundary-shift:clean")
 	floors = append(floors, "carry:"+pMgrDepURL, "clean-cross-origin:"+pMgrDepURL, "extension:clean-other-authority", "extension:carry-own-origin")
 	core.Register(&core.Check{
 		ID:    prop,
@@ -52,6 +53,8 @@ func init() {
 			"thorough adds the 44 two-deviation repositories; quick crosses redirects with the paths that hand URLs to the getter differently, thorough crosses everything on chart paths 1-2 and the bare references. " +
 			"Plus, on every call path, bare repository URLs (no path, no trailing slash) x the chart URLs that textually extend them into another authority (R+':8443/..', R+'@evil.test/..', R+'.evil.test/..'); " +
 			"plus Manager.Update with the dependency's repository URL spelled at distance <=1 (scheme, host, port, userinfo) from the repositories.yaml URL, over the full 180-spelling product. " +
+			"Plus the one-character scheme/host boundary shift (https://H vs http://sH, http://sH vs https://H) for all 180 repository spellings at getter level and the reduced set on every call path; " +
+			"plus Manager.Update with two credentialed repositories (own pass-credentials flag each, both listing orders, both indexes listing the same absolute chart URL; credentials of R only on R's origin unless R's own flag is on). " +
 			"Plus histories on ONE HTTPGetter instance (options are sticky): all ordered pairs of Get calls over the 12 (thorough 56) repository spellings, each call either re-configuring the getter " +
 			"(WithURL, WithBasicAuth of its own credentials, WithPassCredentialsAll on/off) or inheriting, the file on the origin of either repository or a third one; thorough also all ordered triples over 6 origin relations. " +
 			"distinct = the case tuple; a case is non-trivial when Helm issued at least one request",
@@ -225,7 +228,38 @@ func enumerate(thorough bool, only string, f func(Case)) spaceInfo {
 			if path == pLocate {
 				extDropped += d
 			}
+			chs = append(chs, boundaryShiftCharts(bare)...)
 			block(path, []string{bare}, chs, combos, false)
+			// the same one-character shift for the repository spelling with its path
+			block(path, []string{r}, boundaryShiftCharts(r), combos, false)
+		}
+	}
+	// getter level: the scheme/host boundary shift for every repository spelling of the full product
+	nShift := 0
+	for _, r := range reposFull {
+		bs := boundaryShiftCharts(r)
+		nShift += len(bs)
+		block(pGetter, []string{r}, bs, []kr{{"chart", "none"}, {"prov", "none"}}, false)
+	}
+	info.Bounds["boundary_shift_chart_spellings_getter_level"] = fmt.Sprint(nShift)
+
+	// Manager.Update with two credentialed repositories, each with its own pass-credentials flag, both listing orders
+	ch2, _ := chartURLs(1, false)
+	kinds2 := []string{"chart"}
+	if thorough {
+		kinds2 = []string{"chart", "prov"}
+	}
+	for _, r := range repos1 {
+		for _, ch := range ch2 {
+			for _, pa := range bools {
+				for _, pb := range bools {
+					for _, bf := range bools {
+						for _, k := range kinds2 {
+							emit(Case{Path: pMgr2Creds, Repo: r, Chart: ch, Pass: pa, PassB: pb, BFirst: bf, Kind: k, Redirect: "none"})
+						}
+					}
+				}
+			}
 		}
 	}
 	info.Bounds["extension_repo_spellings_bare"] = fmt.Sprint(len(extRepos))
@@ -283,6 +317,8 @@ func evaluate(c Case, res Result) evaluated {
 		var v verdict
 		if c.Path == pHistory {
 			v = classifyHist(c, r)
+		} else if c.Path == pMgr2Creds {
+			v = classify2(c, r)
 		} else {
 			v = classify(c.Repo, c.Pass, r)
 		}
@@ -375,11 +411,37 @@ func floorsOf(c *core.Ctx, ev evaluated) {
 		histFloors(c, ev)
 		return
 	}
+	if cs.Path == pMgr2Creds {
+		for _, v := range ev.Verdicts {
+			switch {
+			case v.Class == "creds-pass-credentials" && v.Rec.Auth == repoBAuth && cs.PassB:
+				c.Floor("2creds:owners-own-pass-flag-honoured")
+			case v.Class == "clean" && cs.BFirst && !cs.PassB && cs.Pass:
+				if ob, _ := originOfURL(repoBURL); originOfRec(v.Rec) != ob {
+					c.Floor("2creds:other-repositorys-pass-flag-not-inherited")
+				}
+			case v.Class == "creds-same-origin":
+				c.Floor("2creds:carry-own-origin")
+			}
+		}
+		return
+	}
 	ro, err := originOfURL(cs.Repo)
 	if err != nil {
 		return
 	}
 	ru, _ := url.Parse(cs.Repo)
+	if !cs.Pass {
+		for _, b := range boundaryShiftCharts(cs.Repo) {
+			if b == cs.Chart {
+				for _, v := range ev.Verdicts {
+					if v.Class == "clean" && kindOfPath(v.Rec.Path) != "index" {
+						c.Floor("boundary-shift:clean")
+					}
+				}
+			}
+		}
+	}
 	if len(ev.Verdicts) == 0 && ev.Err != "" {
 		c.Floor("error-before-any-request")
 	}
